@@ -115,15 +115,17 @@ def project(g, di, dc):
 def run_delimited(T, cfg, route=None):
     f = build_frame(T)
     d = cfg['d']
+    q = cfg['q']
+    qk = {} if q == QUOTE else {'quote_char': q}
     sfil = STORE_FILTER_DEFAULT if cfg['filtered'] else STORE_FILTER_DISABLE
     buf = io.StringIO()
     di, dc = len(T['ix']), len(T['labels'][0])
     if route == 'csv' and d == ',':
-        f.to_csv(buf, store_filter=sfil)
+        f.to_csv(buf, store_filter=sfil, **qk)
     elif route == 'tsv' and d == '\t':
-        f.to_tsv(buf, store_filter=sfil)
+        f.to_tsv(buf, store_filter=sfil, **qk)
     else:
-        f.to_delimited(buf, delimiter=d, store_filter=sfil)
+        f.to_delimited(buf, delimiter=d, store_filter=sfil, **qk)
     text = buf.getvalue()
     lines = [chars(x) for x in text.split('\n')]
     if lines and lines[-1] == []:
@@ -131,11 +133,11 @@ def run_delimited(T, cfg, route=None):
     buf.seek(0)
     try:
         if route == 'csv' and d == ',':
-            g = sf.Frame.from_csv(buf, index_depth=di, columns_depth=dc, store_filter=sfil)
+            g = sf.Frame.from_csv(buf, index_depth=di, columns_depth=dc, store_filter=sfil, **qk)
         elif route == 'tsv' and d == '\t':
-            g = sf.Frame.from_tsv(buf, index_depth=di, columns_depth=dc, store_filter=sfil)
+            g = sf.Frame.from_tsv(buf, index_depth=di, columns_depth=dc, store_filter=sfil, **qk)
         else:
-            g = sf.Frame.from_delimited(buf, delimiter=d, index_depth=di, columns_depth=dc, store_filter=sfil)
+            g = sf.Frame.from_delimited(buf, delimiter=d, index_depth=di, columns_depth=dc, store_filter=sfil, **qk)
         res = project(g, di, dc)
     except Exception as e:
         res = {'k': 'err', 'why': type(e).__name__}
@@ -143,13 +145,13 @@ def run_delimited(T, cfg, route=None):
 
 
 # ---- random tables ------------------------------------------------------------------------------------------------------------------
-SPECIALS = ['True', 'nan', 'None', '12', '1.5', '-3', ' a', 'a ', ' ', '', 'a b', 'x"y', '"q"', 'a,b', 'a|b', 'a;b', 'inf', '1.', '.5', '1-', 'NULL', ' 1']
+SPECIALS = ["it's", "'q'", "a'b,c", 'True', 'nan', 'None', '12', '1.5', '-3', ' a', 'a ', ' ', '', 'a b', 'x"y', '"q"', 'a,b', 'a|b', 'a;b', 'inf', '1.', '.5', '1-', 'NULL', ' 1']
 
 
 def rand_text(rng, d):
     if rng.random() < 0.3:
         return rng.choice(SPECIALS)
-    alpha = 'abcxyz' + ' ' * 2 + d + QUOTE + ',;|' + '12.-'
+    alpha = 'abcxyz' + ' ' * 2 + d + QUOTE + "'" + ',;|' + '12.-'
     alpha = alpha.replace('\t', '') + ('' if d == '\t' else d)
     return ''.join(rng.choice(alpha) for _ in range(rng.randint(0, 5)))
 
@@ -293,7 +295,7 @@ def main(ctx):
     for i in range(1200 if quick else 30000):
         d = rng.choice([',', ',', '\t', '|', ';'])
         T = rand_table(rng, d)
-        cfg = {'d': d, 'q': QUOTE, 'filtered': rng.random() < 0.7}
+        cfg = {'d': d, 'q': QUOTE if rng.random() < 0.75 else "'", 'filtered': rng.random() < 0.7}
         try:
             lines, res = run_delimited(T, cfg, route=rng.choice(['csv', 'tsv', None]))
         except Exception as e:
@@ -320,4 +322,4 @@ def main(ctx):
                 ctx.violation(ev['leg'], 'delimited export / import: ' + clause, case={'T': ev['T'], 'cfg': ev['cfg']}, actual={'lines': [''.join(x) for x in ev['lines']], 'res': ev['res']}, clause=clause, expected=rej[ev['id']][1])
     ctx.sample({'leg': 'V', 'event': {'cfg': events[nR]['cfg'], 'lines': [''.join(x) for x in events[nR]['lines']]}})
     return ctx.finish(rule='M/R: two-row table, string index, one string column whose two cells range over all texts of <=2 (thorough 3) characters from {a, 1, blank, delimiter, quote} x delimiters comma / tab / pipe; every enumerated table written and read by the real Frame. '
-                           'V: random tables (1-4 rows, index depth 1-3, columns depth 1-2, 1-4 columns of int (incl. +-2^31) / float quarters with NaN / bool / str cells over an alphabet with both delimiters, quote, blanks, digit-looking, Boolean-looking and StoreFilter words) x 4 delimiters x default / disabled StoreFilter x to_csv / to_tsv / to_delimited; pairs, records, items, dict-records, pickle, deepcopy routes')
+                           'V: random tables (1-4 rows, index depth 1-3, columns depth 1-2, 1-4 columns of int (incl. +-2^31) / float quarters with NaN / bool / str cells over an alphabet with both delimiters, quote, blanks, digit-looking, Boolean-looking and StoreFilter words) x 4 delimiters x 2 quote characters x default / disabled StoreFilter x to_csv / to_tsv / to_delimited; pairs, records, items, dict-records, pickle, deepcopy routes')
